@@ -116,13 +116,22 @@ def hill_climb_mesh_extreme(
     """
     search_direction = np.ascontiguousarray(search_direction)
     best_idx = start_idx
+    # An improvement has to exceed the rounding error of the projection,
+    # which grows with the magnitude of direction and vertices. With an
+    # absolute threshold vertices that tie up to rounding (direction
+    # perpendicular to a face of a large mesh) form a cycle of apparent
+    # improvements and hill climbing never terminates.
+    direction_norm = np.linalg.norm(search_direction)
 
     if shortcut_connections is not None:
         for connected_idx in shortcut_connections:
             vertex_diff = np.ascontiguousarray(
                 vertices[connected_idx] - vertices[best_idx])
             projected_length = search_direction.dot(vertex_diff)
-            if projected_length > PROJECTION_LENGTH_EPSILON:
+            threshold = PROJECTION_LENGTH_EPSILON * max(1.0, direction_norm * (
+                np.sum(np.abs(vertices[connected_idx]))
+                + np.sum(np.abs(vertices[best_idx]))))
+            if projected_length > threshold:
                 best_idx = connected_idx
 
     converged = False
@@ -132,7 +141,10 @@ def hill_climb_mesh_extreme(
             vertex_diff = np.ascontiguousarray(
                 vertices[connected_idx] - vertices[best_idx])
             projected_length = search_direction.dot(vertex_diff)
-            if projected_length > PROJECTION_LENGTH_EPSILON:
+            threshold = PROJECTION_LENGTH_EPSILON * max(1.0, direction_norm * (
+                np.sum(np.abs(vertices[connected_idx]))
+                + np.sum(np.abs(vertices[best_idx]))))
+            if projected_length > threshold:
                 best_idx = connected_idx
                 converged = False
 
